@@ -10,6 +10,7 @@ import (
 	"github.com/ethereum/go-ethereum/common"
 	"github.com/ethereum/go-ethereum/core"
 	corevm "github.com/ethereum/go-ethereum/core/vm"
+	"github.com/ethereum/go-ethereum/crypto"
 	ethparams "github.com/ethereum/go-ethereum/params"
 )
 
@@ -32,7 +33,14 @@ func NewTracer(tracer string, msg core.Message, cfg *ethparams.ChainConfig, heig
 	case TracerAccessList:
 		const mergeNetsplit = true
 		preCompiles := corevm.ActivePrecompiles(cfg.Rules(big.NewInt(height), mergeNetsplit))
-		return logger.NewAccessListTracer(msg.AccessList(), msg.From(), *msg.To(), preCompiles)
+		var to common.Address
+		if msg.To() != nil {
+			to = *msg.To()
+		} else {
+			// contract creation: the address being created, as go-ethereum's own access-list creation does
+			to = crypto.CreateAddress(msg.From(), msg.Nonce())
+		}
+		return logger.NewAccessListTracer(msg.AccessList(), msg.From(), to, preCompiles)
 	case TracerJSON:
 		return logger.NewJSONLogger(logCfg, os.Stderr)
 	case TracerMarkdown:
